@@ -270,11 +270,17 @@ def validate(events, workdir, max_shards):
     n_shards = max(1, min(max_shards, len(events), max(len(events) // 200 + 1, total // 1_000_000 + 1)))
     shards = [[] for _ in range(n_shards)]
     loads = [0] * n_shards
-    order = sorted(range(len(events)), key=lambda i: -len(lines[i]))
-    for i in order:
+    # events of one threaded / repeated case must meet in one shard (the trace spec remembers the first
+    # outcome of each call and compares later ones with it); everything else is placed individually
+    groups = {}
+    for i, e in enumerate(events):
+        key = ("case", e.get("idx")) if "sig" in e else ("ev", i)
+        groups.setdefault(key, []).append(i)
+    glist = sorted(groups.values(), key=lambda g: -sum(len(lines[i]) + 200 for i in g))
+    for g in glist:
         j = loads.index(min(loads))
-        shards[j].append(i)
-        loads[j] += len(lines[i]) + 200
+        shards[j].extend(g)
+        loads[j] += sum(len(lines[i]) + 200 for i in g)
     procs = []
     for j, idxs in enumerate(shards):
         idxs.sort()
